@@ -29,21 +29,23 @@ theorem programRect_eq (height width : Nat) (rs : List Rect) :
 
 /-! ### non-vacuity -/
 
-/-- A 2×3 board (height < width) with three rooms — a domino with the number 1, an L-free vertical domino in
-the last column, and a domino below — i.e. the rectangles `(0,0,1,2,1)`, `(0,2,2,3,-1)`, `(1,0,2,2,-1)`. -/
+/-- A 2×3 board (height < width) divided into three vertical dominoes, the middle one with the number 1 — the
+rectangles `(0,0,2,1,-1)`, `(0,1,2,2,1)`, `(0,2,2,3,-1)`.  Each row crosses two room borders, so rule 4 posts
+`is_black[y,0] | is_black[y,1] | is_black[y,2]` for both rows. -/
 def exPb : Problem :=
   { height := 2, width := 3,
-    rooms := [[(0, 0), (0, 1)], [(0, 2), (1, 2)], [(1, 0), (1, 1)]],
-    clues := [1, -1, -1] }
+    rooms := [[(0, 0), (1, 0)], [(0, 1), (1, 1)], [(0, 2), (1, 2)]],
+    clues := [-1, 1, -1] }
 
 theorem exPb_wf : WellFormed exPb := by
   refine ⟨by decide, by decide, by decide, by decide, by decide, by decide⟩
 
-example : WellFormed exPb ∧ ∃ P, program exPb = .ok P ∧ P.keys = [0, 1, 2, 3, 4, 5] :=
-  ⟨exPb_wf, _, Cspuz.Proofs.C11HeyawakeB.program_eq exPb_wf, rfl⟩
+/-- 7 adjacency + 7 connectivity + 1 room-count + 2 line constraints. -/
+example : WellFormed exPb ∧ ∃ P, program exPb = .ok P ∧ P.cs.length = 7 + 7 + 1 + 2 ∧ P.keys = [0, 1, 2, 3, 4, 5] :=
+  ⟨exPb_wf, _, rfl, by decide, by decide⟩
 
 /-- The same instance in the rectangle format. -/
-example : programRect 2 3 [⟨0, 0, 1, 2, 1⟩, ⟨0, 2, 2, 3, -1⟩, ⟨1, 0, 2, 2, -1⟩] = program exPb := by
+example : programRect 2 3 [⟨0, 0, 2, 1, -1⟩, ⟨0, 1, 2, 2, 1⟩, ⟨0, 2, 2, 3, -1⟩] = program exPb := by
   rw [programRect_eq]; rfl
 
 end Cspuz.C11.Heyawake
